@@ -296,6 +296,7 @@ EXC_PARENT = {
     "OutsideException": "Exception",
     "InvalidFolderNameFormat": "Exception",
     "ValueError:runs": "ValueError",  # modelling class: ValueError raised by the sub/superrun bookkeeping
+    "ValueError:target": "ValueError",  # modelling class: get_splits' "Target size is too small"
     "Any": "Exception",  # an unknown exception raised by abstracted code
 }
 
